@@ -45,6 +45,15 @@ def run(ctx):
         os.remove(tr)
         if ctx.violations and not T:
             break
+    # sequential histories (all delete APIs, snapshots closed in any order, garbage lists unlinked at arbitrary points) in which the
+    # driver chains the live nodes through the public NodeList helper (their Link fields), as an application's back index does;
+    # judged with the allocator's verdict after Close and with faults on poisoned memory turned into Panic events
+    if not ctx.violations or T:
+        from checks import mvcc
+        tr, info = mvcc.run_random(ctx, "c04_seq", 600 if T else 100, 140, "gc", 6, seed_off=404)
+        mvcc.judge(ctx, tr, info, "sequential histories with nodes chained in a NodeList (allocator verdict at Close)")
+        ctx.traces += info["scenarios"]
+        os.remove(tr)
     # readers that keep pointers across their accessor tokens (visitor pivots, iterator cursors, backup shards)
     # against same-epoch insert/delete churn on neighbouring keys
     if not ctx.violations or T:
